@@ -35,6 +35,15 @@ func genC16App(t *rapid.T) *Case {
 			r.Resp = []int{rapid.SampledFrom([]int{0, 5, 20000}).Draw(t, fmt.Sprintf("r%d.resp0", i))}
 			r.HOps = []MDOp{{Kind: "send", Idx: 0}}
 			r.HExtraSend = true
+			if len(c.Events) == 0 && rapid.IntRange(0, 2).Draw(t, fmt.Sprintf("r%d.first_fails", i)) == 0 {
+				// the first send fails half-way (the response exceeds the window, the caller does not read, a deadline on the
+				// serving end passes); the handler tries again: still a second send on a non-streaming side
+				r.Resp = []int{70000}
+				r.StallRecv = true
+				r.HStallSend = rapid.Bool().Draw(t, fmt.Sprintf("r%d.late_sender", i)) // (then even the first send starts after the deadline)
+				r.GrpcTimeout = []string{"50m"}
+				c.Events = []Event{{Kind: "advance", Ms: 100, After: rapid.IntRange(4, 30).Draw(t, fmt.Sprintf("r%d.deadline_after", i))}}
+			}
 		}
 		c.RPCs = append(c.RPCs, r)
 	}
